@@ -247,11 +247,35 @@ def match_peek_arms(src, fn_name, tmap):
 def messages(srcs):
     """syntax error message literals (for non-emptiness); returns list of (file, literal)"""
     out = []
-    pat = re.compile(r'(?:\.error|self\.error|error_and_eat|error_and_recover|or_error|expect_with_msg)\(\s*(?:p\s*,\s*)?(?:T!\[[^\]]+\]\s*,\s*|TokenKind::\w+\s*,\s*)?"((?:[^"\\]|\\.)*)"', re.S)
+    pat = re.compile(r"""(?:\.error|self\.error|error_and_eat|error_and_recover|or_error|expect_with_msg)\(\s*(?:p\s*,\s*)?(?:T!\[(?:'[^']+'|[^\]'])+\]\s*,\s*|TokenKind::\w+\s*,\s*)?"((?:[^"\\]|\\.)*)\"""", re.S)
     for rel, src in srcs:
         for m in pat.finditer(src):
             out.append((rel, m.group(1)))
     return out
+
+
+def ide_messages(srcs):
+    """diagnostic message templates of the indexer, in source order: the first string literal of every `.error(` call
+    (a plain literal or the format string of a `format!`); only used to map reworded messages back (vlib/msgmap.py)"""
+    out = []
+    for rel, src in srcs:
+        src = src.split("#[cfg(test)]")[0]
+        for m in re.finditer(r"\.error\(", src):
+            seg = src[m.end():m.end() + 600]
+            k = re.search(r'"((?:[^"\\]|\\.)*)"', seg)
+            semi = seg.find(";")
+            if k and (semi < 0 or k.start() < semi):
+                out.append((rel, k.group(1)))
+    return out
+
+
+def eof_message(pp_src):
+    """the message the preprocessor parks for the end of the text: the literal of the statement-form `self.error("...");` calls
+    of preprocessor.rs (the other calls are the values of match arms / tail expressions and produce an Error token)"""
+    lits = re.findall(r'self\.error\(\s*"((?:[^"\\]|\\.)*)"\s*\)\s*;', pp_src)
+    if not lits or len(set(lits)) != 1:
+        raise ExtractError("end-of-text message of the preprocessor not found or not unique: %r" % lits)
+    return lits[0]
 
 
 def folding_kinds(src):
@@ -314,6 +338,10 @@ def extract():
     t["messages"] = messages([
         ("lexer.rs", lx_src), ("preprocessor.rs", pp_src), ("parser.rs", pa_src),
         ("grammar.rs", gr_src), ("statement.rs", st_src), ("value.rs", va_src), ("type.rs", ty_src)])
+    t["eof_message"] = eof_message(pp_src)
+    import glob as _glob
+    ide_files = ["crates/ide/src/index.rs"] + sorted(os.path.relpath(x, REPO) for x in _glob.glob(os.path.join(REPO, "crates/ide/src/index/*.rs")))
+    t["ide_messages"] = ide_messages([(os.path.basename(f), strip_comments(read(f))) for f in ide_files])
     t["compl_toplevel"] = const_str_array(co_src, "TOPLEVEL_KEYWORDS")
     t["compl_types"] = const_str_array(co_src, "PRIMITIVE_TYPES")
     t["compl_snippet_types"] = re.findall(r'new_snippet\(\s*"([a-z]+)"\s*,\s*"[^"]*"', co_src)
@@ -444,6 +472,8 @@ def emit_lean(t):
         w("def %s : List (List Char) := [%s]" % (name, ",\n  ".join(lean_chars(x) for x in lst)))
         w("")
     strlist("messages", sorted(set(unescape_rust(m) for _, m in t["messages"])))
+    w("def eofMessage : List Char := %s" % lean_chars(unescape_rust(t["eof_message"])))
+    w("")
     strlist("complToplevel", t["compl_toplevel"])
     strlist("complTypes", t["compl_types"])
     strlist("complSnippetTypes", t["compl_snippet_types"])
